@@ -21,6 +21,7 @@ import os
 from harness import world
 from harness.common import NCPU, Ctx
 from harness import c16_driver as D
+from harness import c16_trigger as TG
 
 GENERATED: list = []
 MANIFEST = {
@@ -56,8 +57,14 @@ MANIFEST = {
             "Also in the shared-shape part: iter_history_in_timerange / iter_invocations_in_timerange (batch sizes 1..3, equal "
             "timestamps inside one operation via the harness' history clock; batches must be full, ordered, nothing missing or "
             "duplicated; the flattened content is compared with the model). IMPLEMENTATION-VS-IMPLEMENTATION ONLY (no model, "
-            "strict): record_atomic_service_execution, get_invocation_ids_by_workflow. NOT COVERED: trigger store, client data "
-            "store, app-info registry, workflow-run registry, negative limits / offsets. "
+            "strict): record_atomic_service_execution, get_invocation_ids_by_workflow, and the whole TRIGGER STORE "
+            "(harness/c16_trigger.py: MemTrigger vs SQLiteTrigger on the same seeded sequences - register conditions of every kind "
+            "incl. cron ones with 0 / negative / default timing parameters, register triggers, get_condition / get_trigger / "
+            "get_triggers_for_condition / get_conditions_sourced_from_task compared by value with what was registered, record / get "
+            "/ clear valid conditions, claim_trigger_run under the virtual clock at the expiry boundary, store / get last cron "
+            "execution incl. the compare-and-swap, check_time_based_triggers at instants on and around the schedule points, "
+            "clean_task_trigger_definitions, purge - full read-out after every operation, unordered answers as sorted lists). "
+            "NOT COVERED: client data store, app-info registry, workflow-run registry, negative limits / offsets. "
             "No translator: the tie is the differential correspondence (every run executes the current source of both backends "
             "against both models; the witnesses of the seven repaired divergences run as regression cases). Trusted: SQLite engine; "
             "harness connection cache (one sqlite3 connection per thread and file instead of one per call; SQL text unchanged); "
@@ -191,10 +198,11 @@ def _worker_init(scratch):
     world.quiet()
     clock = VirtualClock(D.T0).install()
     hclock = D.HistClock(clock).install()
+    tclock = TG.TrigClock(clock).install()
     cache = D.ConnCache().install()
     sub = os.path.join(scratch, f"w{os.getpid()}")
     os.makedirs(sub, exist_ok=True)
-    _W.update(clock=clock, hclock=hclock, cache=cache, impls={k: D.Impl(k, sub, clock, hclock) for k in ("mem", "sqlite")})
+    _W.update(clock=clock, hclock=hclock, tclock=tclock, cache=cache, impls={k: D.Impl(k, sub, clock, hclock) for k in ("mem", "sqlite")})
 
 
 def run_case_on(kind, case):
@@ -218,6 +226,11 @@ def run_case_on(kind, case):
 
 def _worker(args):
     idx, case = args
+    if case and case[0] == "TRIGGER":                      # trigger-store differential (no model)
+        _W["cache"].drop()
+        m = TG.run_case(_W["impls"]["mem"], case[1])
+        s = TG.run_case(_W["impls"]["sqlite"], case[1])
+        return idx, m, s, []
     m, _ = run_case_on("mem", case)
     s, nested = run_case_on("sqlite", case)
     return idx, m, s, nested
@@ -539,7 +552,8 @@ def main(ctx: Ctx) -> int:
     try:
         import threading
         impl_res: dict = {}
-        th = threading.Thread(target=lambda: impl_res.update(run_impl([c for _, c in cases], scratch)))
+        tcases = TG.gen_cases(ctx.rng, ctx.thorough)
+        th = threading.Thread(target=lambda: impl_res.update(run_impl([c for _, c in cases] + [("TRIGGER", tc) for _, tc in tcases], scratch)))
         th.start()
         # long sequences get a coqc process each (they dominate the wall time); the many short ones are batched
         heavy = [n for n, (_, c) in enumerate(cases) if len(c) > 12]
@@ -579,6 +593,24 @@ def main(ctx: Ctx) -> int:
         check_case(ctx, kind, case, mem, sql, val, stats)
         if kind == "guarded" and len(ctx.coverage["samples"]) < 3:
             ctx.sample({"kind": kind, "ops": case[:10], "length": len(case)})
+    # ---- trigger store: Mem vs SQLite directly
+    t_steps = 0
+    t_ops: dict = {}
+    for k, (fkey, tc) in enumerate(tcases):
+        mem_t, sql_t, _ = impl_res[len(cases) + k]
+        t_steps += len(tc)
+        for o in tc:
+            t_ops[o[0]] = t_ops.get(o[0], 0) + 1
+        d = TG.first_difference(mem_t, sql_t)
+        if d:
+            j, what, a, b = d
+            ctx.violation(fkey or f"trigger:{tc[j][0]}:{what.split('[')[0]}",
+                          f"trigger store: after {tc[j]} the two stores differ at {what}: in-memory {json.dumps(a)[:300]} vs SQLite {json.dumps(b)[:300]}",
+                          {"component": "trigger", "ops": [list(o) for o in tc[:j + 1]], "probe": what, "backend": "mem-vs-sqlite",
+                           "observed": a, "expected": b})
+    ctx.count(t_steps * 2 * 50, len({json.dumps(tc) for _, tc in tcases}))
+    ctx.notes["trigger_store"] = {"sequences": len(tcases), "operations": t_steps, "operation_histogram": t_ops,
+                                  "readout_values_per_operation": 50, "comparison": "MemTrigger vs SQLiteTrigger, by value, no model"}
     lens: dict = {}
     opk: dict = {}
     for _, c in cases:
@@ -609,6 +641,19 @@ def main(ctx: Ctx) -> int:
 def replay(ctx: Ctx, path: str) -> int:
     world.quiet()
     rp = json.load(open(path))["replay"]
+    if rp.get("component") == "trigger":
+        scratch = world.scratch_dir()
+        try:
+            _worker_init(scratch)
+            case = [tuple(o) for o in rp["ops"]]
+            m = TG.run_case(_W["impls"]["mem"], case)
+            s = TG.run_case(_W["impls"]["sqlite"], case)
+            for op, a, b in zip(case, m, s):
+                print(f"{op!r}: mem -> {a[0]}   sqlite -> {b[0]}")
+            print("first difference (step, what, mem, sqlite):", TG.first_difference(m, s))
+        finally:
+            world.rm_scratch(scratch)
+        return 0
     case = [tuple(o) for o in rp["ops"]]
     probe = tuple(rp["probe"])
     scratch = world.scratch_dir()
@@ -626,6 +671,7 @@ def replay(ctx: Ctx, path: str) -> int:
             print(f"{kind:6s} probe {probe!r} -> {im.do(probe)}    (reference model: {rp.get('expected')}; recorded on {rp.get('backend')}: {rp.get('observed')})")
         _W["cache"].uninstall()
         _W["hclock"].uninstall()
+        _W["tclock"].uninstall()
         _W["clock"].uninstall()
     finally:
         world.rm_scratch(scratch)
